@@ -22,6 +22,8 @@ import GgrsModel.Proofs.Queue
 import GgrsModel.Proofs.World
 import GgrsModel.Proofs.DelayStep
 import GgrsModel.Proofs.EntryPoint
+import GgrsModel.Proofs.DropGame
+import GgrsModel.Proofs.EntryDrop
 
 namespace Ggrs.SyncLayer
 
@@ -141,6 +143,67 @@ theorem C02_entry_point {G : Type} (step : G → List (Input × InputStatus) →
     rw [hn] at hg hchk
     exact ⟨c, c', hg, hchk, by rw [hcur, hc3.sync]⟩
   · obtain ⟨_, ⟨c, c', hg, hchk, hcur⟩, _⟩ := WInv_tick0 step g0 s1 s3 b.2 now sy r reqs' ((savedFrames reqs').map fun f => (f, none)) h1 hf0 hsv hadv
+      (by simp [List.map_map, Function.comp_def])
+    rw [hn] at hg hchk
+    exact ⟨c, c', hg, hchk, by rw [hcur, hc3.sync]⟩
+
+/-- **C02 (and C01's state clause) with dropped players.** Take any run of the world with drops and
+a game: remote inputs arriving, accepted `disconnect_player` calls, Disconnected events of
+endpoints, and `advance_frame` calls (rollback mode, either saving mode) whose request lists the
+game executes in order, its saves reaching the cells. Then the next call's request list passes the
+frame-consistency check from a check state that matches the game — saves name the game's frame,
+loads name an earlier frame whose cell still holds a state of the CURRENT timeline, the
+re-simulation that a drop triggers included — it ends at `current_frame()`, unchanged or one
+higher, and the game's state is the serial replay of its own timeline, whose rows carry
+(blank, Disconnected) for the dropped players beyond their last frames (`C07_final_timeline`). -/
+theorem C02_consistent_drops {G : Type} (step : G → List (Input × InputStatus) → G) (g0 : G)
+    (a b : P2P × GS G) (h0 : WInvD step g0 a.1 a.2) (hrun : XWStar step a b)
+    (now : Nat) (reqs' : List Request) (s' : P2P)
+    (hadv : b.1.advanceRollbackFrame now [] = .ok (s', reqs')) :
+    TickOK step g0 b.1 b.2 s' reqs' ∧
+    b.2.cur = b.1.sync.currentFrame ∧ b.2.g = replay step g0 b.2.R b.2.cur.toNat := by
+  have h := WInvD_run step g0 a b h0 hrun
+  obtain ⟨c, hc, hg, _, _⟩ := h.chk
+  exact ⟨(WInvD_tick step g0 b.1 s' b.2 now reqs' ((savedFrames reqs').map fun f => (f, none)) h hadv
+    (by simp [List.map_map, Function.comp_def])).2, hg.cur.trans hc, hg.state⟩
+
+/-- The premises are satisfiable: every state of the old world with no disconnect scheduled. -/
+example {G : Type} (step : G → List (Input × InputStatus) → G) (g0 : G) (s : P2P) (x : GS G)
+    (h : WInv step g0 s x) (hdf : s.disconnectFrame = NULL_FRAME) : WInvD step g0 s x :=
+  WInvD_of_WInv step g0 s x h hdf
+
+/-- **C02 (with C01's state clause and C09's reports) at the real entry point, with dropped players.**
+Take any run of the world with drops, a deterministic game and the desync bookkeeping. For a
+successful rollback-mode call of `advance_frame_core` itself — desync bookkeeping, the extra save on
+the first call, `update_player_disconnects`, `advance_rollback_frame`, the wait recommendation —
+made while the running endpoints' gossip tells the session nothing new (`QuietGossip`: whoever they
+report as disconnected is already marked here with a last frame no later than theirs; in a two-peer
+session after the drop there is no running endpoint left), with the game executing the returned
+requests: the request list passes the frame-consistency check from a check state that matches the
+game and ends at the new `current_frame()`, and the world invariant (session with dead players,
+game = replay, cells, their checksums) holds again — so every all-schedules theorem about drops
+applies to the next call of the entry point. -/
+theorem C02_entry_point_drops {G : Type} (step : G → List (Input × InputStatus) → G) (g0 : G) (csf : G → Option Nat)
+    (a b : P2P × GS G) (h0 : CInvD step g0 csf a) (hrun : CXStar step csf a b)
+    (now : Nat) (s' : P2P) (reqs' : List Request)
+    (hmp : (b.1.maxPrediction == 0) = false)
+    (hng : ∀ s1, b.1.desyncPhase now = .ok s1 → QuietGossip s1)
+    (hcall : b.1.advanceFrameCore now = .ok (s', .ok reqs')) :
+    CInvD step g0 csf
+      (s'.userExecute (gameSaves step csf b.1.sync.cells.length b.2 reqs'), execGs step b.1.sync.cells.length b.2 reqs') ∧
+    ∃ c c', GInv step g0 b.1.sync.cells.length b.2 c ∧ ChkList b.1.sync.cells.length c reqs' c' ∧
+      c'.cur = s'.sync.currentFrame := by
+  have hb := CInvD_run step g0 csf a b h0 hrun
+  obtain ⟨hpath, s1, s3, hp1, hc1, hc3, hform⟩ := call_is_pathD step csf b.1 s' b.2 now reqs' hmp hng hcall
+  refine ⟨CInvD_run step g0 csf b _ hb hpath, ?_⟩
+  have h1 := (CInvD_run step g0 csf b (s1, b.2) hb hp1).1
+  have hn : s1.sync.cells.length = b.1.sync.cells.length := by rw [hc1.sync]
+  rcases hform with hadv | ⟨sy, r, hf0, hsv, hadv⟩
+  · obtain ⟨_, ⟨c, c', hg, hchk, hcur⟩, _⟩ := WInvD_tick step g0 s1 s3 b.2 now reqs' ((savedFrames reqs').map fun f => (f, none)) h1 hadv
+      (by simp [List.map_map, Function.comp_def])
+    rw [hn] at hg hchk
+    exact ⟨c, c', hg, hchk, by rw [hcur, hc3.sync]⟩
+  · obtain ⟨_, ⟨c, c', hg, hchk, hcur⟩, _⟩ := WInvD_tick0 step g0 s1 s3 b.2 now sy r reqs' ((savedFrames reqs').map fun f => (f, none)) h1 hf0 hsv hadv
       (by simp [List.map_map, Function.comp_def])
     rw [hn] at hg hchk
     exact ⟨c, c', hg, hchk, by rw [hcur, hc3.sync]⟩
